@@ -37,6 +37,12 @@ ASSUMPTIONS = [
     "reconstruction (C05), model image = the array handed to the fit; determinants by numpy slogdet on the matrices "
     "restricted to regularized parameters",
     "residual flux fraction is not compared at pixels whose data value is exactly zero (definition undefined there)",
+    "second-fit histories: a fit's statistics are functions of the fit's own data / noise_map / model_data properties at "
+    "the time they are read, so a fit class overriding noise_map and a dataset whose noise map was edited in place through "
+    "the structure's public __setitem__ must be followed; maps are fresh arrays per read on the pinned tree, so a held map "
+    "must keep its values (bitwise) and share no memory with maps of later fits",
+    "tiny-coefficient lists: H = c^2 L + 1e-8 I with c^2 ~ 1e-9 is well conditioned (cond < 2), so its log-determinant "
+    "is demanded to ~1e-9; the curvature side uses the usual condition-aware tolerance",
 ]
 BOUNDS = {
     "quick": "plain: all 3187 masks with <= 9 cells (3x3, 2x4, 4x2, 1x9 ... 1x1) x 2 value menus x 2 sky levels x "
